@@ -93,6 +93,8 @@ def _parts(x, conv="s"):
         raise EngineLimit("str() of a symbolic bool")
     if isinstance(x, Sym):
         raise EngineLimit(f"str() of {type(x).__name__}")
+    if t.__name__ == "CStr":
+        return [Lit("<symbolic characters>")]  # only occurs in messages
     if t is bool and conv == "d":
         return [Lit(str(int(x)))]
     if conv == "r":
@@ -102,7 +104,7 @@ def _parts(x, conv="s"):
 
 def has_sym(x):
     """Does formatting x need the engine?"""
-    if isinstance(x, (TStr, Sym)):
+    if isinstance(x, (TStr, Sym)) or type(x).__name__ == "CStr":
         return True
     if isinstance(x, (tuple, list)):
         return any(has_sym(i) for i in x)
